@@ -102,6 +102,32 @@ class SStr:
         for x in self.cells:
             yield SStr((x,))
 
+    def _all_cells(self, name):
+        """str predicates that hold iff the string is non-empty and every character satisfies them
+        (isspace, isdigit, isalpha, isalnum, isdecimal, isnumeric, isprintable is excluded: true for '')"""
+        if not self.cells:
+            return False
+        terms = []
+        for x in self.cells:
+            if isinstance(x, str):
+                if not getattr(x, name)():
+                    return False
+            else:
+                terms.append(core._mk_bool(z3.Or(*[x == k for k in range(0x500) if getattr(chr(k), name)()])))
+        return core.b_and(*terms) if terms else True
+
+    def isspace(self):
+        return self._all_cells("isspace")
+
+    def isdigit(self):
+        return self._all_cells("isdigit")
+
+    def isalpha(self):
+        return self._all_cells("isalpha")
+
+    def isalnum(self):
+        return self._all_cells("isalnum")
+
     def __getitem__(self, i):
         if isinstance(i, slice):
             return SStr(self.cells[i])
